@@ -330,12 +330,19 @@ def splice_module(text, mod_path, fnspecs, gen, twin=False):
             spec += f'\n        {kind}'
             for c in clauses:
                 spec += '\n            ' + (MARK % c.id) + ' ' + c.text.replace('\n', '\n              ') + ','
+        if 'noiso' in fs.opts:
+            # pre-loop facts about unmodified locals stay visible in loop bodies: no 'link' invariants naming locals
+            edits.append((it.start, it.start, '#[verifier::loop_isolation(false)] '))
         emit('requires', fs.requires)
         emit('ensures', fs.ensures)
         if fs.decreases: spec += f'\n        decreases {fs.decreases}'
         if spec:
             edits.append((it.body_open, it.body_open, spec.lstrip('\n') + '\n    ' if False else spec + '\n    '))
-        if twin and (fs.requires or True):
+        noiso = [o for o in fs.opts if o.startswith('noiso')]
+        if len(noiso) > 1: raise Unsupported(f'{fs.path}: at most one non-isolated loop per function (reachability twins share its query)')
+        if twin and not noiso:
+            # (a function with a non-isolated loop has no entry twin: a failed assert(false) there would be assumed in the
+            #  loop's query, which is the same one; the loop-body twin subsumes it)
             tid = 'TWIN:fn:' + fs.path
             edits.append((it.body_open + 1, it.body_open + 1, f'\n        proof {{ {MARK % tid} assert(false); }}'))
             gen.twin_points.append(tid)
@@ -384,6 +391,9 @@ def splice_module(text, mod_path, fnspecs, gen, twin=False):
                     if ins != brace: raise Unsupported(f'{fs.path}: decreases given for a loop that already has a generated one')
                     sp += f'\n            decreases {ls.decreases}'
                 edits.append((ins, ins, sp + '\n        '))
+                if f'noiso:{fs.loops.index(ls) + 1}' in fs.opts:
+                    # this loop sees the facts established before it (no 'link' invariants naming unmodified locals)
+                    edits.append((kw, kw, '#[verifier::loop_isolation(false)] '))
                 if htext.startswith('for') and (ls.invariants or ls.except_break):
                     mfor = re.match(r'for\s+(.*?)\s+in\s+', htext, re.S)
                     # R10: name the ghost iterator so invariants can mention it
